@@ -16,6 +16,10 @@ C["C04"] = dict(
     text="all interleavings at single shared-memory-access granularity of real queue.put/queue.pop (producer and consumer views over one memory) for every listed (capacity, producers, puts, pops, cursor base) scenario, state-pruned; every execution's call/return history checked for linearizability against a bounded FIFO with porcupine; occupancy invariant after every access",
     note="sequentially consistent interleavings only; bounds: capacity<=3, producers<=3, puts<=3; 64-bit state hashes",
     technique=TECH_A + " + porcupine linearizability oracle", design="DESIGN.md section 4 C04")
+C["C05"] = dict(
+    text="all interleavings (state-pruned; preemption bound 2-3 for the largest scenarios) of 1-3 producers closing 1-3 streams each (real Stream.close: enqueue, then real wakeUpPeer with its fast path and the real send() loop for the slow path) with a consumer running the real handlePolling (drain, markNotWorking re-check) once per delivered polling event; oracle in every quiescent end state: receive queue empty",
+    note="the event connection is a recording stub (each written polling event is delivered exactly once, in any order relative to the other threads); SC interleavings; producers<=3",
+    technique=TECH_A, design="DESIGN.md section 4 C05")
 NA = {}
 m = {
     "version": 1,
